@@ -106,19 +106,25 @@ Creates(s, op, d) == op \in {"Insert", "Add", "PublicAdd"} \/ (op \in {"GetOrAdd
 \* the Ordered clause is stated for schema-permitted pre-states only
 OrderedJudged(c, d, s, op) == op \in CreatingOps /\ Known(c, d.child) /\ Creates(s, op, d) /\ PermittedFor(c, s, d.child)
 
+\* "'change to' leaves exactly one member of its choice group" is judged on every parent holding at most one member
+\* (schema-permitted) AND on a parent holding several members when the call really changes the choice (the requested
+\* member is absent): the sentence is unqualified, and a deck from a careless producer is where it matters.  A parent
+\* that holds the requested member next to another one is a "get", not a change: not judged.
+ChangeJudged(s, d) == CountIn(s, d.group) <= 1 \/ ~Has(s, d.child)
+
 \* jd = OrderedJudged(c, d, s, op), passed in so that it is evaluated once per step
 HoldsJ(n, c, d, s, op, t, jd) ==
   CASE n = "Ordered" ->
          jd => (Has(t, d.child) /\ PlacedInOrder(c, t, d.child))
     [] n = "AtMostOne" ->            \* get-or-add creates at most one child; change-to never leaves two of the group
          /\ op = "GetOrAdd" => Count(t, d.child) <= (IF Has(s, d.child) THEN Count(s, d.child) ELSE 1)
-         /\ (op = "ChangeTo" /\ CountIn(s, d.group) <= 1) => CountIn(t, d.group) <= 1
+         /\ (op = "ChangeTo" /\ ChangeJudged(s, d)) => CountIn(t, d.group) <= 1
     [] n = "GetOrAddIdempotent" ->   \* a second get-or-add changes nothing
          (op = "GetOrAdd" /\ Has(s, d.child)) => t = s
     [] n = "RemoveRemovesAll" ->
          op = "RemoveAll" => ~Has(t, d.child)
     [] n = "ChangeToLeavesExactlyOne" ->
-         (op = "ChangeTo" /\ CountIn(s, d.group) <= 1) => CountIn(t, d.group) = 1
+         (op = "ChangeTo" /\ ChangeJudged(s, d)) => CountIn(t, d.group) = 1
 Holds(n, c, d, s, op, t) == HoldsJ(n, c, d, s, op, t, OrderedJudged(c, d, s, op))
 
 FailingJ(c, d, s, op, t, jd) == {Names[k] : k \in {j \in DOMAIN Names : ~HoldsJ(Names[j], c, d, s, op, t, jd)}}
